@@ -606,6 +606,29 @@ impl C04 {
             }
             s.push_str(&format!("constraint {} = {};\n", me, arms.join(" | ")));
         }
+        if t.chance(1, 4) {
+            // an exemplar and a value nested equally deep (up to 40 levels) that agree, or
+            // disagree only at the bottom
+            let depth = 1 + t.choice(40);
+            let (mut e, mut v) = ("1".to_string(), (*t.pick(&["2", "\"s\"", "1.5", "[]"])).to_string());
+            for k in 0..depth {
+                match (t.choice(3), k % 2) {
+                    (0, _) => {
+                        e = format!("{{a = {}}}", e);
+                        v = format!("{{a = {}}}", v);
+                    }
+                    (1, _) => {
+                        e = format!("{{a = {}, b = 0}}", e);
+                        v = format!("{{b = 1, a = {}}}", v);
+                    }
+                    _ => {
+                        e = format!("[{}]", e);
+                        v = format!("[{}]", v);
+                    }
+                }
+            }
+            s.push_str(&format!("let deep :: {} = {};\n", e, v));
+        }
         for i in 0..1 + t.choice(3) {
             let c = NAMES[t.choice(ndefs)];
             let depth = t.choice(15);
